@@ -39,9 +39,13 @@ for (pid, k), v in sorted(verify.items()):
     try: meta = json.load(open(f'{src}/meta{k}.json'))
     except Exception as e: meta = {'note': f'agent meta unreadable: {e}'}
     res = results.get((pid, k), {})
-    old = {}
+    old = {}; keep = {}
     if os.path.exists(f'{dst}/meta.json'):
-        try: old = json.load(open(f'{dst}/meta.json')).get('checks_run', {})
+        try:
+            om = json.load(open(f'{dst}/meta.json'))
+            old = om.get('checks_run', {})
+            # fields added by hand or by later experiments survive a re-collection
+            keep = {k: v for k, v in om.items() if k in ('generated_search_only', 'note')}
         except Exception: pass
     old.update({c: ('caught (exit 1)' if e == 1 else f'not caught (exit {e})') for c, e in res.items()})
     out = {
@@ -55,6 +59,7 @@ for (pid, k), v in sorted(verify.items()):
             **v},
         'checks_run': old,
         'how_checks_were_run': 'tools/try_mutant.sh: git -C /repo apply patch.diff; ./check <ID> --tier quick; git -C /repo checkout -- .',
+        **keep,
     }
     json.dump(out, open(f'{dst}/meta.json', 'w'), indent=1)
     rows.append((pid, k, meta.get('summary', ''), old))
